@@ -345,6 +345,9 @@ example (x : Nat → Rat) (hx : SolvesRepaired (kEntry exE 4) 4 x) : x 3 = piEnt
   C18_repaired_solution_is_pi exE 4 exValid exConn (by decide) x hx 3 (by decide)
 example : ∀ w ∈ densityList exE 4 3 [1 / 2, 1 / 2, 0, 0], w.length = 4 ∧ w.sum = 1 :=
   (C18_density exE 4 exValid exConn (by decide) 3 [1 / 2, 1 / 2, 0, 0] rfl (by norm_num)).2.2.2.1
+/-- the theorem does not ask for non-negative entries: a signed start (what `np.isclose(np.sum(s), 1)` admits) -/
+example : ∀ w ∈ densityList exE 4 2 [3 / 2, -1, 0, 1 / 2], w.length = 4 ∧ w.sum = 1 :=
+  (C18_density exE 4 exValid exConn (by decide) 2 [3 / 2, -1, 0, 1 / 2] rfl (by norm_num)).2.2.2.1
 
 private theorem exChoice (i j : Nat) (hi : i < 4) :
     validChoice exE 4 i j = (decide (j < 4) && decide (i ≠ j ∧ ∃ e ∈ exE, i ∈ e ∧ j ∈ e)) := by
